@@ -5,7 +5,15 @@ use p3_batch_stark::ProverData;
 use p3_circuit::{Circuit, Traces};
 use p3_circuit_prover::batch_stark_prover::{BatchStarkProver, CircuitProverData, TablePacking};
 use p3_circuit_prover::common::get_airs_and_degrees_with_prep;
-use p3_circuit_prover::config::{self, BabyBearConfig};
+use p3_baby_bear::default_babybear_poseidon2_16;
+use p3_challenger::DuplexChallenger;
+use p3_circuit_prover::config::BabyBearConfig;
+use p3_commit::ExtensionMmcs;
+use p3_dft::Radix2DitParallel;
+use p3_fri::{FriParameters, TwoAdicFriPcs};
+use p3_merkle_tree::MerkleTreeMmcs;
+use p3_symmetric::{PaddingFreeSponge, TruncatedPermutation};
+use p3_uni_stark::StarkConfig;
 use p3_circuit_prover::ConstraintProfile;
 use vpcore::quiet_catch;
 
@@ -44,6 +52,24 @@ fn first_word(s: &str) -> String {
         .to_string()
 }
 
+/// The repository's BabyBear configuration (`config::baby_bear()`: same hash, compression,
+/// MMCS, DFT, challenger) with test-grade FRI parameters (2 queries, 1+1 PoW bits, blow-up 4)
+/// instead of the benchmark ones (100 queries, 16 grinding bits): ~20x cheaper proofs.
+/// Completeness checks do not depend on the FRI parameters; for forged traces the rejection
+/// comes from the out-of-domain identity / LogUp terminal sum, which no parameter weakens.
+pub fn fast_baby_bear() -> BabyBearConfig {
+    let perm = default_babybear_poseidon2_16();
+    let hash = PaddingFreeSponge::<_, 16, 8, 8>::new(perm.clone());
+    let compress = TruncatedPermutation::<_, 2, 8, 16>::new(perm.clone());
+    let val_mmcs = MerkleTreeMmcs::new(hash, compress, 3);
+    let challenge_mmcs = ExtensionMmcs::new(val_mmcs.clone());
+    let dft = Radix2DitParallel::default();
+    let fri_params = FriParameters::new_testing(challenge_mmcs, 0);
+    let pcs = TwoAdicFriPcs::new(dft, val_mmcs, fri_params);
+    let challenger = DuplexChallenger::new(perm);
+    StarkConfig::new(pcs, challenger)
+}
+
 /// Base-field (D = 1) BabyBear: prepare, prove, verify.
 pub fn prove_verify_bb1(
     circuit: &Circuit<BabyBear>,
@@ -51,7 +77,7 @@ pub fn prove_verify_bb1(
     packing: &TablePacking,
 ) -> Verdict {
     let r = quiet_catch(|| {
-        let cfg = config::baby_bear();
+        let cfg = fast_baby_bear();
         let (airs_degrees, prim, nonprim) = match get_airs_and_degrees_with_prep::<BabyBearConfig, _, 1>(
             circuit,
             packing,
